@@ -90,6 +90,12 @@ pub fn judge_case(c: &Case) -> Obs {
             let dir = TempDir::new();
             dir.write("prog.asm", text.as_bytes());
             let feat: Vec<&str> = if built.stack { vec!["-f", "stack"] } else { vec![] };
+            // half of the time the destination already holds the (longer) output of an earlier compile
+            if obs.key % 2 == 0 {
+                let stale: Vec<u8> = (0..(2 * img.words.len() + 2 + 64 + (obs.key % 7) as usize)).map(|i| (i * 7 + 3) as u8).collect();
+                dir.write("prog.lc3", &stale);
+                obs.label("destination-held-an-older-longer-file");
+            }
             let mut args = vec!["compile", "prog.asm", "prog.lc3"];
             args.extend(&feat);
             let comp = cli::lace(&args, dir.path(), &[], false, 30);
@@ -262,7 +268,7 @@ impl Prop for C06 {
         true
     }
     fn rule(&self) -> &'static str {
-        "(a) ProgGen programs (terminating, with output, optional input, origins incl. none) through the real binary: `lace compile` must exit 0 and write exactly 2(n+1) bytes = big-endian origin (0x3000 without .orig) ++ RefAsm's words; `lace run prog.lc3` and `lace run prog.asm` (same flags, same stdin) must give the same exit status and the same stdout modulo the `target <name>` banner lines, and both must equal RefVM (exit status, banner lines, program output character for character). \
+        "(a) ProgGen programs (terminating, with output, optional input, origins incl. none) through the real binary: `lace compile` (half of the time over an older, longer file at the same path) must exit 0 and leave exactly 2(n+1) bytes = big-endian origin (0x3000 without .orig) ++ RefAsm's words; `lace run prog.lc3` and `lace run prog.asm` (same flags, same stdin) must give the same exit status and the same stdout modulo the `target <name>` banner lines, and both must equal RefVM (exit status, banner lines, program output character for character). \
          (b) byte strings offered as .lc3 / .obj: empty, 1 byte, odd lengths, origin only (incl. 0xFFFF, 0xFE00), images ending exactly at / one or two below / above 0x10000, ordinary images, 65,000-65,540-word images, and an enumerated grid of file sizes 131,070..262,145 bytes x origins {0,1,2,0x3000}: accepted <=> even length >= 2 and origin + n + 1 <= 0x10000; accepted files behave as RefVM says; rejected ones exit non-zero with a status other than 101, no signal, no panic message, and are not run. \
          Non-trivial: the program prints and has a label or a non-default / absent origin; or the file is within 2 words of a loader limit, odd or tiny. Distinct = hash(file bytes / source + input)."
     }
